@@ -34,7 +34,7 @@ RULE = (
 )
 ASSUMPTIONS = [
     "the event at which a receiver raises the abort may miss its later receivers (the exception propagates); every other event must reach all of them exactly once, handlers of the emitting plan first, then ancestors, then observers",
-    "observer/handler aborts are generated only at events of optimizer steps (the quantifier's scope); evaluator steps are aborted from inside the evaluator",
+    "observer/handler aborts are generated at the events of optimizer steps (the quantifier's scope) and, since the evaluator step handles them the same way (fix ba9e381), of evaluator steps",
 ]
 COMPONENTS = {
     "real": ["Plan.emit_event / run_step / abort", "DefaultOptimizerStep", "DefaultEvaluatorStep", "EnsembleOptimizer", "tracker handler", "OptimizerContext observers"],
@@ -116,7 +116,7 @@ def _abort_points(ctx) -> list[dict]:
     pts = []
     ev_of_call = {}
     for rec in ctx.events:
-        if rec.source >= 0 and ctx.step_meta[rec.source]["kind"] == "optimizer":
+        if rec.source >= 0:  # (events of optimizer steps - the quantifier's scope - and of evaluator steps alike)
             for r in rec.deliveries:
                 pts.append({"kind": "event", "event": rec.n, "receiver": r, "type": int(rec.type)})
     for c in ctx.evaluator.calls:
